@@ -282,6 +282,13 @@ def step (prop : String) (d : TD) (toks : List String) (impl : String) : TD × R
       let fails := kvNat toks "fails"
       let t' := trackRequest (boOf d) d.t r.id fails (kvNat toks "rnd") found
       finishOp d prop toks impl t' d.slow d.active "" ["track", if fails ≥ 5 then "track-fails5" else "track-other"]
+  | "tsnap" :: _ =>
+    -- concurrent drive of the running loop: the order of application is unknown, only the invariant is judged.
+    -- The revalidation-list clause is judged on drained snapshots only (a running snapshot can fall between the two
+    -- updates of one handler, which take the table mutex separately).
+    let selfIdx := d.bo.length - 1
+    let mon := (invMonitor d selfIdx impl).filter fun c => c != "reval_lists_agree" || kv toks "phase" == "drained"
+    (d, { model := "", skipCompare := true, monitor := if prop == "C18" then [] else mon, tags := ["tsnap", kv toks "phase"] })
   | "tabpanic" :: _ => (d, { model := "no-panic", monitor := ["table_operation_panics"], tags := ["tabpanic"] })
   | _ => (d, { model := "bad-op", tags := ["bad-op"], nontrivial := false })
 
